@@ -24,6 +24,10 @@ ops
 * `nscano prog dc ysel nout init leaves length lengths`  → `ok carry ys` | error kind
   (the general model `nestedCheckpointScanOut`: `nout` = number of array leaves of the body's output
   pytree; with `nout = 0` — a body returning `None` as output — `ys` is rendered `N`)
+* `nscans prog dc ysel nout init leaves sizes length lengths` → `ok carry ys` | error kind
+  (the model with the `reshape` test on TOTAL sizes, `nestedCheckpointScanSized` /
+  `nestedCheckpointScanTreeSized`: `sizes` = for every leaf the size of its trailing shape
+  `prod x.shape[1:]`, possibly `0`; `_` for `xs = None`)
 * `acc prog weights x`                                  → vector
 * `lanczos T c dt` (F only)                             → vector | error kind
 * `dfi solver E I filters T c dt s` (F only)            → vector
@@ -159,6 +163,24 @@ def runK (K : Type) [Sc K] : List String → Option String
     let r := match leaves with
       | [xs] => nestedCheckpointScanOut nout body init xs length ls
       | _ => nestedCheckpointScanTreeOut nout (fun c r => body c r.flatten) init leaves length ls
+    match r with
+    | .error e => pure e.toString
+    | .ok (c, ys) => pure (if nout = 0 then s!"ok {rVec c} N" else s!"ok {rVec c} {rMat ys}")
+  | ["nscans", p, dc, ysel, nout, init, leaves, sizes, length, ls] => do
+    let p ← pProg? (K := K) p; let dc ← dc.toNat?; let ysel ← parseNatVec? ysel
+    let nout ← nout.toNat?
+    let init ← pVec? (K := K) init
+    let leaves ← if leaves = "N" then some [] else (leaves.splitOn "/").mapM (pMat? (K := K))
+    let sizes ← parseNatVec? sizes
+    let length ← if length = "N" then some none else length.toNat?.map some
+    let ls ← parseNatVec? ls
+    if sizes.length ≠ leaves.length then none else
+    let body := fun (c : List K) (row : List K) =>
+      let z := runProg p (c ++ row)
+      (z.take dc, select ysel z)
+    let r := match sizes.zip leaves with
+      | [(sz, xs)] => nestedCheckpointScanSized sz [] nout body init xs length ls
+      | sl => nestedCheckpointScanTreeSized [] nout (fun c r => body c r.flatten) init sl length ls
     match r with
     | .error e => pure e.toString
     | .ok (c, ys) => pure (if nout = 0 then s!"ok {rVec c} N" else s!"ok {rVec c} {rMat ys}")
